@@ -14,3 +14,4 @@ import electrumx, aiorpcx, plyvel, sortedcontainers
 print('setup ok: electrumx', electrumx.version, 'aiorpcx', aiorpcx._version_str)
 PY
 if [ -f tools/mine_collisions.py ]; then /venv/bin/python tools/mine_collisions.py; fi
+/venv/bin/python tools/conformance.py
